@@ -27,8 +27,8 @@ func genLatencies(r *rand.Rand, n int, shape int) []uint64 {
 			out[i] = uint64(r.Int63n(1e9))
 		case 1: // log-normal
 			out[i] = uint64(math.Exp(r.NormFloat64()*1.5+14)) + 1
-		case 2: // constant
-			out[i] = 123456789
+		case 2: // constant (the value is chosen once per multiset, see constValue)
+			out[i] = 0
 		case 3: // few-valued: filled in by fewValued below
 			out[i] = 0
 		case 4: // bimodal with a huge gap
@@ -50,8 +50,27 @@ func genLatencies(r *rand.Rand, n int, shape int) []uint64 {
 // 3 % of n of a boundary between two values.  Inside that margin the estimator interpolates between the two
 // neighbouring clusters and breaks the rank bound - a genuine finding that is listed in known_findings.json and
 // reproduced by the fixed instance knownTwoCluster below, so the random generator stays clear of it.
+// constValue draws one latency: round ones, ones that do not survive a round trip through float seconds, any value.
+func constValue(r *rand.Rand) uint64 {
+	switch r.Intn(3) {
+	case 0:
+		return []uint64{123456789, 65000, 129000, 1001000000, 1003000000, 1, 999999999, 3600e9 + 1}[r.Intn(8)]
+	case 1:
+		return uint64(1+r.Intn(100000)) * 1000
+	}
+	return uint64(r.Int63n(5e9))
+}
+
 func fewValued(r *rand.Rand, n int) []uint64 {
 	vals := []uint64{7, 1e6, 40e6, 41e6, 3e9}
+	for i := range vals { // the magnitudes stay, the exact values vary
+		if i > 0 && r.Intn(2) == 0 {
+			vals[i] += uint64(r.Intn(1000000))
+		}
+	}
+	if r.Intn(3) == 0 {
+		vals[1], vals[2] = 250000000, 1001000000
+	}
 	k := 2 + r.Intn(4)
 	if k > n {
 		k = n
@@ -126,6 +145,12 @@ func TestDrv_C11(t *testing.T) {
 						lats[0] = 1e6
 					} else {
 						lats = fewValued(r, n)
+					}
+				}
+				if shape == 2 {
+					c := constValue(r)
+					for i := range lats {
+						lats[i] = c
 					}
 				}
 				shapeName := fmt.Sprint(shape)
